@@ -20,14 +20,16 @@
 
    Integers are Z.  The one place where the property depended on a C variable being unsigned is ADF_Write_Data's count
    of remaining bytes (repaired by /repo d6f9e64): [c_unsigned] selects the old text, with explicit wrap mod 2^64.
-   Three further switches follow repairs PROPOSED in notes/C02c.md (all false = the code as it is):
+   Four further switches follow repairs PROPOSED in notes/C02c.md (all false = the code as it is):
      c_fix_wall    ADF_Write_All_Data, several chunks: the chunk is rewritten with its own size, not with the number of
                    bytes that happen to go into it (today a shrunk rewrite moves the chunk's end tag inwards while the
                    table keeps the old size)
      c_fix_wblock  ADF_Write_Block_Data, a further chunk is added: offset of the block inside the new chunk =
                    start_byte - chunk_end_byte (today: start_byte - <size of the new chunk>)
      c_fix_zero    ADFI_write_data_chunk(NULL): zero fill of more than 4096 bytes covers the chunk (today: the rest of the
-                   first block plus ONE byte, then the same second block over and over) *)
+                   first block plus ONE byte, then the same second block over and over)
+     c_fix_rblock  ADF_Read_Block_Data, several chunks holding less than the block asked for: the rest of the caller's
+                   buffer is zeroed over block_bytes - bytes_read bytes (today: total_bytes - bytes_read, past its end) *)
 From Coq Require Import ZArith List Bool Lia FMapPositive.
 From CgnsV Require Import ListX AdfCodec Hyperslab.
 Import ListNotations.
@@ -51,10 +53,10 @@ Definition MAXSZ : Z := 2 ^ 44.                    (* 2^32 blocks of 4096 bytes:
 Definition TW64 : Z := 2 ^ 64.
 Definition toS (x : Z) : Z := let y := x mod TW64 in if y <? 2 ^ 63 then y else y - TW64.
 
-Record cfg := mkCfg { c_unsigned : bool; c_fix_wall : bool; c_fix_wblock : bool; c_fix_zero : bool }.
-Definition Old : cfg := mkCfg true false false false.      (* before /repo d6f9e64 *)
-Definition Cur : cfg := mkCfg false false false false.     (* /repo 59a38ab *)
-Definition Fixed : cfg := mkCfg false true true true.      (* Cur + the three repairs of notes/C02c.md *)
+Record cfg := mkCfg { c_unsigned : bool; c_fix_wall : bool; c_fix_wblock : bool; c_fix_zero : bool; c_fix_rblock : bool }.
+Definition Old : cfg := mkCfg true false false false false.      (* before /repo d6f9e64 *)
+Definition Cur : cfg := mkCfg false false false false false.     (* /repo 59a38ab *)
+Definition Fixed : cfg := mkCfg false true true true true.  (* Cur + the four repairs of notes/C02c.md *)
 
 (* ------------------------------------------------------------------ data types *)
 Inductive dtype := MT | C1 | B1 | I4 | U4 | R4 | I8 | U8 | R8 | X4 | X8.
@@ -630,7 +632,11 @@ Definition read_block (h : hdr) (d : disk) (b_start b_end : Z) : out (list (opti
   else
     tb <- read_table d (h_dc h) (h_n h) ;;
     '(x, br) <- rblock_loop (firstn (Z.to_nat (h_n h)) tb) d total start_byte end_byte block_bytes 0 0 ;;
-    if br <? block_bytes then Err E_INCOMPLETE else Ok x.
+    if br <? block_bytes then
+      (* INCOMPLETE_DATA, after memset(data_pointer, 0, total_bytes - bytes_read) into the caller's buffer of
+         block_bytes bytes (the repair zeroes block_bytes - bytes_read) *)
+      if c_fix_rblock cf || (total <=? block_bytes) then Err E_INCOMPLETE else OOBW 7
+    else Ok x.
 
 (* ------------------------------------------------------------------ ADF_Read_Data *)
 Fixpoint rsingle (ps : list Z) (prev : Z) (bo : ptr) (fb : Z) (d : disk) : out (list (option Z)) :=
